@@ -110,7 +110,9 @@ def static_part(ctx):
     texts = []
     for sh, g in zip(shards, groups):
         ev = " ++ ".join("unit_enc roots_%d bodies_%d" % (i, i) for i in g)
-        texts.append(head + "\n".join(sh) + "\nEval vm_compute in (%s).\n" % ev)
+        cls_g = [i for i in g if getattr(units[i], "is_class", False)]
+        ev2 = "flat_map (fun l : list nat => length l :: l) [%s]" % "; ".join("unit_tainted roots_%d bodies_%d" % (i, i) for i in cls_g)
+        texts.append(head + "\n".join(sh) + "\nEval vm_compute in (%s).\nEval vm_compute in (%s).\n" % (ev, ev2))
     rtexts, cls_units = refit_texts(units)
     outs_all = C.run_shards(ctx.prop, texts + rtexts)
     outs, routs = outs_all[:len(texts)], outs_all[len(texts):]
@@ -119,9 +121,15 @@ def static_part(ctx):
     broken = []
     for g, (rc, out) in zip(groups, outs):
         lists = C.parse_nat_lists(out)
-        if rc != 0 or len(lists) != 1:
+        if rc != 0 or len(lists) != 2:
             broken.append(out[-1500:])
             continue
+        tpos = 0
+        for i in g:            # attributes that may alias caller storage, per class: [n; closed; attrs...]
+            if getattr(units[i], "is_class", False):
+                n = lists[1][tpos]
+                units[i].coq_tainted = (bool(lists[1][tpos + 1]), sorted(lists[1][tpos + 2: tpos + 1 + n]))
+                tpos += 1 + n
         flat, pos = lists[0], 0
         for i in g:
             u = units[i]
@@ -137,6 +145,30 @@ def static_part(ctx):
                                     py_sites=py_bad, closure=closure, nstmts=len(body),
                                     nwrites=sum(1 for s in body if s[0] in ("Write", "SetParam"))))
     return units, entries, broken, sum(len(t) for t in texts), refit, sum(len(t) for t in rtexts)
+
+
+def py_tainted_attrs(unit):
+    """reference evaluation of Effects.tainted_attrs for the program of all methods of a class
+    -> (set of attribute numbers, {root: set of attribute numbers it reaches})"""
+    allst = [s for _, b in unit.bodies for s in b]
+
+    def closure(roots):
+        tv, ta = set(roots), set()
+        ch = True
+        while ch:
+            ch = False
+            for s in allst:
+                if s[0] in ("Alias", "MayAlias"):
+                    if s[2] in tv and s[1] not in tv:
+                        tv.add(s[1]); ch = True
+                elif s[0] == "StoreAttr":
+                    if s[2] in tv and s[1] not in ta:
+                        ta.add(s[1]); ch = True
+                elif s[0] == "LoadAttr":
+                    if s[2] in ta and s[1] not in tv:
+                        tv.add(s[1]); ch = True
+        return ta
+    return closure(unit.roots), {r: closure([r]) for r in unit.roots}
 
 
 def describe_sites(e):
@@ -466,6 +498,42 @@ def run(ctx):
                     " (confirmed by a failing history, see the C09 refit reports)" if r["cls"] in dyn_refit_classes else ""),
                 dict(cls=r["cls"], kind=kind, attribute=key, site=desc), key="%s:refit-static %s %s" % (r["cls"], kind, _norm_key(key)),
                 found_input=False)
+    # ---- fit returns self, statically: every return statement of the (inlined) fit yields the receiver
+    n_fit_self = 0
+    for u in units:
+        if getattr(u, "is_class", False) and hasattr(u, "fit_returns_not_self"):
+            n_fit_self += 1
+            if u.fit_returns_not_self:
+                C.report_violation(ctx, "C09 fails (static): %s.fit does not return the estimator itself on every path: %s" % (
+                    u.name, "; ".join(u.fit_returns_not_self[:3])), dict(cls=u.name, returns=u.fit_returns_not_self),
+                    key="%s.fit:returns self (static)" % u.name, found_input=False)
+    # ---- fitted state aliasing caller arrays: static set (C09_untainted_attr_not_caller) x dynamic overwrite runs
+    alias_static = []
+    for u in units:
+        if not getattr(u, "is_class", False) or not hasattr(u, "coq_tainted"):
+            continue
+        ta_ref, per_root = py_tainted_attrs(u)
+        closed, coq_ta = u.coq_tainted
+        if not closed or coq_ta != sorted(ta_ref):
+            C.report_violation(ctx, "C09 tainted-attribute set of %s does not match the reference evaluation" % u.name,
+                               dict(cls=u.name, coq=coq_ta, reference=sorted(ta_ref), closed=closed), found_input=False)
+        names = {v: k for k, v in u.attrs.items()}
+        tainted_names = set()
+        for a in coq_ta:
+            key = names.get(a, "?")
+            if not key.startswith("self.") or key.endswith(".*") or key[5:] in u.hyper:
+                continue
+            roots = sorted({u.varnames[r] for r, tas in per_root.items() if a in tas and not u.varnames[r].startswith("__init__:")})
+            if roots:
+                tainted_names.add(key[5:])
+                alias_static.append(dict(cls=u.name, attribute=key[5:], may_alias=roots))
+        for v in dyn["violations"]:
+            if v["case"].get("kind") == "alias" and v["case"].get("scenario") == u.name and v.get("detail"):
+                unpredicted = [x.split(" ")[0] for x in v["detail"] if x.split(" ")[0] not in tainted_names]
+                if unpredicted:
+                    C.report_violation(ctx, "C09 correspondence broken: %s of %s follow the caller's later writes dynamically but the regenerated "
+                                            "IR says they cannot alias caller storage" % (", ".join(unpredicted), u.name),
+                                       dict(case=v["case"], attributes=unpredicted), found_input=True)
     for txt in broken:
         C.report_violation(ctx, "C09 case file did not evaluate", dict(coq_output=txt), found_input=False)
     if not po["ok"]:
@@ -501,6 +569,8 @@ def run(ctx):
             static_entries_exercised_dynamically=len(st_entries & dyn_entries),
             static_entries_not_exercised=sorted(st_entries - dyn_entries),
             fail_closed_callees=unknown, stale_state_reads_in_fit=stale,
+            learned_attributes_that_may_alias_caller_arguments=alias_static,
+            fit_returns_self_checked_statically=n_fit_self,
             refit_static=dict(
                 classes=len(refit), ir_bytes=refit_bytes, ir_nodes=sum(r["nodes"] for r in refit),
                 methods=sum(len(r["methods"]) for r in refit), learned_attributes=sum(r["learned"] for r in refit),
